@@ -175,6 +175,38 @@ impl Stats {
         false
     }
 
+    /// The common shape of a functional case: select, open the ledger, run `body`
+    /// under catch_unwind, turn an `Err("Kind: text")` / unexpected panic into a
+    /// violation with signature `op|flavour|Kind`, close the ledger (no leak allowed),
+    /// record the case.  Returns whether the case ran.
+    pub fn check_case(
+        &mut self,
+        prop: &str,
+        op: &str,
+        flav: &str,
+        desc: impl FnOnce() -> String,
+        nontrivial: bool,
+        body: impl FnOnce() -> Result<(), String>,
+    ) -> bool {
+        let Some(desc) = self.select(desc) else { return false };
+        ledger::begin_case();
+        crate::fault::reset();
+        self.op(op);
+        let r = crate::fault::catch(body);
+        let res = match r {
+            crate::fault::Caught::Returned(x) => x,
+            crate::fault::Caught::Injected(s, k) => Err(format!("HarnessBug: injected panic {s}@{k} escaped")),
+            crate::fault::Caught::Other(m) => Err(format!("Panic: {m} ({})", crate::fault::last_panic())),
+        };
+        if let Err(e) = res {
+            let kind = e.split(':').next().unwrap_or("Mismatch").to_string();
+            self.violation(prop, &format!("{op}|{flav}|{kind}"), &desc, &e);
+        }
+        self.judge_ledger(prop, &format!("{op}|{flav}"), &desc, false);
+        self.done(&desc, nontrivial);
+        true
+    }
+
     pub fn finish(mut self) {
         let _m = Mask::new();
         let t = ledger::total_counters();
